@@ -161,6 +161,46 @@ func (c *Check) ruleAccumulatorSelfAppend(rule, fnKey string, names ...string) {
 			"the list carried round the loop is the first argument of the accumulating call",
 			"the conflict list carried round the input loop is not the list being extended (arguments swapped): conflicts found on earlier inputs are lost and the outpoint index's own list is appended to")
 	}
+	if n == 0 {
+		// the merge written in place (a nested loop appending the missing entries): the append whose result
+		// is carried round a loop extends the carried list itself
+		for _, b := range fn.Blocks {
+			for _, in := range b.Instrs {
+				call, ok := in.(*ssa.Call)
+				if !ok || builtinCall(call, "append") == nil || len(call.Call.Args) < 2 {
+					continue
+				}
+				var phi *ssa.Phi
+				seen := map[ssa.Value]bool{}
+				var find func(v ssa.Value, d int)
+				find = func(v ssa.Value, d int) {
+					if d > 4 || seen[v] || phi != nil || v.Referrers() == nil {
+						return
+					}
+					seen[v] = true
+					for _, r := range *v.Referrers() {
+						if p, ok := r.(*ssa.Phi); ok {
+							if loopBody(p.Block()) != nil {
+								phi = p
+								return
+							}
+							find(p, d+1)
+						}
+					}
+				}
+				find(call, 0)
+				if phi == nil {
+					continue
+				}
+				n++
+				arg0 := call.Call.Args[0]
+				okA := arg0 == ssa.Value(phi) || derivesFromValue(arg0, phi)
+				c.Decide(okA, rule, fmt.Sprintf("%s#accumulates-into-own-list@%d", fnKey, n), call.Pos(), "value flow", nil,
+					"the list carried round the loop is the list the append extends",
+					"the conflict list carried round the input loop is not the list being extended: conflicts found on earlier inputs are lost")
+			}
+		}
+	}
 	c.Min(rule, "accumulating calls in "+fnKey, n, 1)
 }
 
